@@ -1,4 +1,4 @@
-import sys; sys.path[:0]=['/repo']
+import sys, os; sys.path[:0]=[os.environ.get('VERIF_REPO','/repo')]
 import itertools, time, warnings, numpy as np, torch
 from qucumber.observables import SigmaZ, SigmaX, NeighbourInteraction
 from qucumber.observables.observable import ObservableBase
